@@ -28,6 +28,7 @@ def run(facts, rep):
         return
     sites = []          # (fn, row term text, strictly-below?)
     calls_to = {}       # fn -> [(caller, [arg texts])]
+    guards = {}         # (callee, arg texts) -> set of frozenset(conditions on nrows) under which the call is made
     for k, b in sorted(bodies.items()):
         rep.saw(b)
         try:
@@ -41,6 +42,9 @@ def run(facts, rep):
             for e in p.calls():
                 nm = e.name
                 a = [re.sub(r'&mut _\d+', 'IT', sk(x)) for x in e.args]
+                if nm.startswith(H):
+                    g = frozenset((t, v != 0) for t, v in conds if re.match(r'(Gt|Ge|Ne|Lt|Le|Eq)\(nrows\(&?\*?arg1\.data\), \d+\)$', t))
+                    guards.setdefault((nm, tuple(a[1:])), set()).add(g)
                 if nm.startswith(H) and (nm, tuple(a)) not in seen:
                     seen.add((nm, tuple(a)))
                     calls_to.setdefault(nm, []).append((k, a[1:]))
@@ -57,6 +61,8 @@ def run(facts, rep):
         rep.violation('E26.V2-last-row-normalised', 'LLLHNFCalc|a pivot-normalisation site reaches every row', 'LLLHNFCalc never multiplies a row by the normalising unit of its pivot', where='yui-matrix/src/dense/lll.rs')
         return
     covers_last = []
+    narrowed = []
+    unknown_guard = []
     for fn, r, below in sites:
         short = fn[len(H):]
         inst = 'LLLHNFCalc::%s|normalises the pivot of row %s' % (short, r)
@@ -70,12 +76,45 @@ def run(facts, rep):
             cands = [a[int(m.group(1)) - 2] for (_, a) in calls_to.get(fn, []) if len(a) >= int(m.group(1)) - 1]
         for c in cands:
             if re.match(r'SubWithOverflow\(nrows\(&?\*?arg1\.data\), 1\)\.0$', c) or c == 'next(IT).Some.0':
-                covers_last.append((short, c))
+                # the guards on the number of rows under which this site is reached must admit every m >= 1
+                gs = set()
+                for (callee, args), gg in guards.items():
+                    if callee == fn and c in args:
+                        gs |= gg
+                admits = None
+                for g in (gs or {frozenset()}):
+                    ok_m = True
+                    for (t, truth) in g:
+                        mm = re.match(r'(Gt|Ge|Ne|Lt|Le|Eq)\(nrows\(&?\*?arg1\.data\), (\d+)\)$', t)
+                        if not mm:
+                            ok_m = None
+                            break
+                        cst = int(mm.group(2))
+                        for m_ in (1, 2, 3):
+                            val = {'Gt': m_ > cst, 'Ge': m_ >= cst, 'Ne': m_ != cst, 'Lt': m_ < cst, 'Le': m_ <= cst, 'Eq': m_ == cst}[mm.group(1)]
+                            if val != truth:
+                                ok_m = False
+                    if ok_m is True:
+                        admits = True
+                    elif ok_m is False and admits is None:
+                        admits = False
+                if admits is False:
+                    narrowed.append((short, c, sorted(sorted(g) for g in gs)))
+                elif admits is True:
+                    covers_last.append((short, c))
+                else:
+                    unknown_guard.append((short, c))
         rep.ok('E26.V1-normalisation-sites', inst, 'row argument supplied as %s' % cands)
     rep.floor('E26 pivot-normalisation sites in LLLHNFCalc', len(sites), 1)
     inst = 'LLLHNFCalc|a pivot-normalisation site reaches the last row m-1'
     if covers_last:
-        rep.ok('E26.V2-last-row-normalised', inst, '%s with row %s' % covers_last[0])
+        rep.ok('E26.V2-last-row-normalised', inst, '%s with row %s, for every number of rows >= 1' % covers_last[0])
+    elif narrowed:
+        rep.violation('E26.V2-last-row-normalised', inst,
+                      'the normalisation of the last row (%s with row %s) is only reached under %s: it is skipped for some matrices with at least one row (a 1 x n input is returned with its pivot as it came)' % narrowed[0],
+                      where='yui-matrix/src/dense/lll.rs')
+    elif unknown_guard:
+        rep.indet('E26: the normalisation of the last row is guarded by a condition outside the recognised fragment: %s' % (unknown_guard[0],))
     else:
         rep.violation('E26.V2-last-row-normalised', inst,
                       'the pivot of a row is normalised only in %s, where the row index is asserted strictly below another row index; the last working row m-1 - the first row of H after the reversal in result() - is never multiplied by its normalising unit (e.g. lll_hnf([[-5]]) = [[-5]], lll_hnf([[0,1],[-1,0]]) = [[-1,0],[0,1]])' %
